@@ -1,27 +1,62 @@
 (* Model/Alpn.v — hand model of the two pieces of TlsConfig that surround the translated
    callback (Gen/AlpnSelect.v): the AppData that tls_start_client attaches to the connection
-   and the upstream ALPN offer list that tls_start_server derives.  Executable only. *)
+   and the upstream ALPN offer list that tls_start_server derives, and the TLS-over-TLS reset in ClientTLSLayer.__init__ (its attribute
+   list is generated: Gen/ClientTlsReset.v).  Executable only. *)
 From Coq Require Import List Bool Arith.
-From MV Require Import Base.Bytes Model.AlpnPrelude Gen.AlpnSelect.
+From MV Require Import Base.Bytes Model.AlpnPrelude Gen.AlpnSelect Gen.ClientTlsReset.
 Import ListNotations.
 
 (* the two literals that occur in tlsconfig.py itself (not the proxy_tls constants) *)
 Definition lit_http11 : bytes := [x68;x74;x74;x70;x2f;x31;x2e;x31].  (* http/1.1 *)
 Definition lit_h2 : bytes := [x68;x32].                               (* h2 *)
 
+(* what the entries of context.layers are, as far as tls_start_client looks at them *)
+Inductive layer_kind := LHttpProxy | LClientTLS | LOther.
+Definition is_http_proxy (k : layer_kind) : bool := match k with LHttpProxy => true | _ => false end.
+Definition is_client_tls (k : layer_kind) : bool := match k with LClientTLS => true | _ => false end.
+
+(* tls_start_client, the secure-web-proxy test.  Two variants of the SAME hook:
+   current code:    len(layers) == 2 and isinstance(layers[0], modes.HttpProxy)
+   repaired code (fixes/C18-secure-web-proxy-real-stack.diff):
+                    len(layers) >= 2 and isinstance(layers[0], modes.HttpProxy)
+                    and not any(isinstance(x, ClientTLSLayer) for x in layers[2:])
+   The harness tells which one the tree under test contains (Corr case field fixed). *)
+Definition is_outer_orig (layers : list layer_kind) : bool :=
+  (length layers =? 2) && match layers with k :: _ => is_http_proxy k | [] => false end.
+Definition is_outer_fixed (layers : list layer_kind) : bool :=
+  match layers with
+  | k :: _ :: rest => is_http_proxy k && negb (existsb is_client_tls rest)
+  | _ => false
+  end.
+Definition is_outer (fixed : bool) (layers : list layer_kind) : bool :=
+  if fixed then is_outer_fixed layers else is_outer_orig layers.
+
 (* tls_start_client:
-     if len(tls_start.context.layers) == 2 and isinstance(tls_start.context.layers[0], modes.HttpProxy):
-         client_alpn = the literal http/1.1
-     else:
-         client_alpn = client.alpn
-     AppData(client_alpn=client_alpn, server_alpn=server.alpn, http2=ctx.options.http2)
-   nlayers = len(context.layers); layer0_http_proxy = isinstance(layers[0], HttpProxy)
-   (only evaluated when nlayers == 2, so any value may be passed otherwise). *)
-Definition tls_start_client_app_data (nlayers : nat) (layer0_http_proxy : bool)
+     if <secure web proxy test>: client_alpn = the literal http/1.1
+     else:                       client_alpn = client.alpn
+     AppData(client_alpn=client_alpn, server_alpn=server.alpn, http2=ctx.options.http2) *)
+Definition tls_start_client_app_data (fixed : bool) (layers : list layer_kind)
     (client_alpn_attr server_alpn_attr : option bytes) (http2_option : bool) : AppData :=
   let client_alpn_v :=
-    if (nlayers =? 2) && layer0_http_proxy then Some lit_http11 else client_alpn_attr in
+    if is_outer fixed layers then Some lit_http11 else client_alpn_attr in
   {| client_alpn := client_alpn_v; server_alpn := server_alpn_attr; http2 := http2_option |}.
+
+(* The ALPN-relevant part of connection.Client, and ClientTLSLayer.__init__ acting on it:
+     if context.client.tls: <the generated CLIENT_TLS_RESET list of attribute resets>
+     super().__init__(...)   which sets conn.tls = True (TLSLayer.__init__) *)
+Record client_tls_state := { c_tls : bool; c_alpn : option bytes; c_alpn_offers : list bytes }.
+
+Definition attr_alpn : bytes := [x61;x6c;x70;x6e].                                   (* alpn *)
+Definition attr_alpn_offers : bytes := [x61;x6c;x70;x6e;x5f;x6f;x66;x66;x65;x72;x73]. (* alpn_offers *)
+
+Definition client_tls_layer_init (st : client_tls_state) : client_tls_state :=
+  let alpn_v :=
+    if c_tls st then match reset_lookup attr_alpn CLIENT_TLS_RESET with Some _ => None | None => c_alpn st end
+    else c_alpn st in
+  let offers_v :=
+    if c_tls st then match reset_lookup attr_alpn_offers CLIENT_TLS_RESET with Some _ => [] | None => c_alpn_offers st end
+    else c_alpn_offers st in
+  {| c_tls := true; c_alpn := alpn_v; c_alpn_offers := offers_v |}.
 
 (* truthiness of server.alpn_offers / client.alpn_offers (None, empty tuple, empty list are falsy) *)
 Definition py_truthy_offers (o : option (list bytes)) : bool :=
